@@ -62,7 +62,19 @@ def call_driver(case, api):
     else:
         expr = "__r.%s(%s)" % (m, ", ".join(names))
     src = CLASSIFY_JS + "try { __out('v', " + expr + ", __r); } catch (e) { __out('t', __cls(e)); }"
+    if case.get("again"):
+        # the same call a second time after the first result was modified in place: a result depends on (method, receiver,
+        # arguments) only, and each call returns a fresh value.  The first result is serialised before it is touched.
+        ctx.set("__snap", lambda v: (got.append(("snap", wire.to_wire(v))), None)[1])
+        ctx.set("__out2", lambda *a: (got.append(("second",) + tuple(wire.to_wire(x) if i == 1 else x for i, x in enumerate(a))), None)[1])
+        src = (CLASSIFY_JS + "var __r1, __thrown = false; try { __r1 = " + expr + "; } catch (e) { __thrown = true; __out('t', __cls(e)); } "
+               "if (!__thrown) { __out('v', __r1, __r); __snap(__r1); "
+               "if (__r1 && typeof __r1 === 'object' && typeof __r1.push === 'function') { __r1.push('zz'); __r1.reverse(); __r1[0] = 'changed'; } "
+               "try { __out2('v', " + expr + "); } catch (e) { __out2('t', __cls(e)); } }")
     out = api.eval_outcome(ctx, src, wall=case.get("wall", 20.0), cap=case.get("cap", 2_000_000))
+    snap = [g for g in got if g[0] == "snap"]
+    second = [g for g in got if g[0] == "second"]
+    got = [g for g in got if g[0] not in ("snap", "second")]
     if out["o"] == "value":
         if len(got) != 1:
             out = {"o": "host", "type": "NoOutcome", "where": "driver", "msg": "got %d outputs" % len(got)}
@@ -71,7 +83,10 @@ def call_driver(case, api):
                 # a gigantic result (no enumerated case has one): recorded as such, not serialised
                 out = {"o": "host", "type": "GiganticResult", "where": "driver", "msg": "string of %d elements" % len(got[0][1])}
             else:
-                out = {"o": "value", "v": wire.to_wire(got[0][1]), "recv_after": wire.to_wire(got[0][2])}
+                out = {"o": "value", "v": (snap[0][1] if snap else wire.to_wire(got[0][1])), "recv_after": wire.to_wire(got[0][2])}
+                if case.get("again"):
+                    # v2: the second call's result; absent = the second call did not produce one
+                    out["v2"] = second[0][2] if second and second[0][1] == "v" else {"k": "hostval", "t": "second call: " + (str(second[0][1:3]) if second else "nothing")}
         else:
             out = {"o": "throw", "cls": str(got[0][1])}
     return {"id": case["id"], "out": out}
